@@ -553,8 +553,10 @@ fn line_simple(w: &mut World, k: &str, kind: &str, a: u32, b: u32) {
     if w.quiet {
         return;
     }
+    // what the public API reports through every held handle, as seen from inside a destructor
+    let seen = if k == "dtor" && w.ub.is_empty() && !w.aborted { seen_json(w) } else { "[]".to_string() };
     let mut s = std::mem::take(&mut w.out);
-    let _ = write!(s, "{{\"k\":\"{}\",\"kind\":\"{}\",\"a\":{},\"b\":{},\"depth\":{},\"obs\":", k, kind, a, b, w.depth);
+    let _ = write!(s, "{{\"k\":\"{}\",\"kind\":\"{}\",\"a\":{},\"b\":{},\"depth\":{},\"seen\":{},\"obs\":", k, kind, a, b, w.depth, seen);
     obs_json(w, &mut s);
     s.push_str("}\n");
     w.out = s;
